@@ -11,8 +11,9 @@ Fixpoint indexed (k : string) (ids : list string) (n : nat) : list (string * Uml
 (* the dictionary entries an item writes *)
 Definition item_entries (it : witem) : list (string * UmlBlob.pv) :=
   match it with
-  | IField _ k v => [(k, PStr (unq v))]
+  | IField _ k v => if String.eqb (py_strip (remove_char "," (unq v))) "" then [] else [(k, PStr (unq v))]     (* a blank value is dropped *)
   | IRefs _ k _ _ _ ids => indexed k ids 0
+  | IRaw s => vstep [] (repr_body SQ (chop s))          (* free text: what Get_ValuesFromOutside makes of that one piece *)
   | _ => []
   end.
 Definition entries (its : list witem) : list (string * UmlBlob.pv) := flat_map item_entries its.
@@ -20,14 +21,6 @@ Definition entries (its : list witem) : list (string * UmlBlob.pv) := flat_map i
 Fixpoint numbered (vals : list UmlBlob.pv) (n : nat) : list (string * UmlBlob.pv) :=
   match vals with [] => [] | v :: r => ("child_" ++ dec n, v) :: numbered r (S n) end.
 
-(* items that write what they say: no free text, no scalar property with an empty value *)
-Definition item_simple (it : witem) : bool :=
-  match it with
-  | IField _ _ v => negb (String.eqb (unq v) "")
-  | IRaw _ | IInert _ => false
-  | _ => true
-  end.
-
-Definition tags_of (l : list slot) : list tag := flat_map (fun s => match s with STag t => [t] | SNoise _ _ => [] end) l.
+Definition tags_of (l : list slot) : list tag := flat_map (fun s => match s with STag t => [t] | _ => [] end) l.
 Definition tag_entries (f : tag -> option witem) (t : tag) : list (string * UmlBlob.pv) :=
   match f t with Some it => item_entries it | None => [] end.
